@@ -115,6 +115,17 @@ def _circuit_queries(p, name, c, extra_constraints=(), describe=None, rebuild=No
                 tot.append((entry, lab, zb(lift(va).u)))
             if entry == "evaluate_circuit_outputs" and set(fa) != set(c.outputs):
                 dis.append((entry + ":keys", None, z3.BoolVal(True)))
+        # one gate asked for explicitly (an internal one included): the value of the whole-circuit evaluation
+        labs = [l for l in c.gates if l not in c.inputs]
+        full_a = c.evaluate_full_circuit(dict(A))
+        for lab in (labs[:2] + labs[-2:]) if len(labs) > 4 else labs:
+            sa, sb = c.evaluate_circuit(dict(A), outputs=[lab]), c.evaluate_circuit(dict(B), outputs=[lab])
+            if lab not in sa or lab not in sb:
+                dis.append(("evaluate_circuit(outputs=[g]):keys", lab, z3.BoolVal(True)))
+                continue
+            dis.append(("evaluate_circuit(outputs=[g])", lab, mono_violation(sa[lab], sb[lab])))
+            dis.append(("evaluate_circuit(outputs=[g]):differs-from-whole-circuit", lab, symeval.states_differ(lift(sa[lab]), lift(full_a[lab]))))
+            tot.append(("evaluate_circuit(outputs=[g])", lab, zb(lift(sa[lab]).u)))
         # unassigned inputs default to Undefined: dropping a key == passing Undefined
         for drop in c.inputs[:3]:
             A2 = {l: (A[l] if l != drop else SymState(False, True)) for l in c.inputs}
@@ -189,6 +200,10 @@ def _circuit_queries(p, name, c, extra_constraints=(), describe=None, rebuild=No
             "    A2=dict(A); A2[drop]=Undefined; A3={k:v for k,v in A.items() if k!=drop}\n"
             "    if c.evaluate_full_circuit(A2)!=c.evaluate_full_circuit(A3): bad.append(('default-undefined full',drop))\n"
             "    if c.evaluate_circuit(A2)!=c.evaluate_circuit(A3): bad.append(('default-undefined lazy',drop))\n"
+            "fullA=c.evaluate_full_circuit(dict(A))\n"
+            "for g in [l for l in c.gates if l not in c.inputs]:\n"
+            "    sa=c.evaluate_circuit(dict(A), outputs=[g]); sb=c.evaluate_circuit(dict(B), outputs=[g])\n"
+            "    if g not in sa or sa[g]!=fullA[g] or (sa[g]!=Undefined and sb.get(g) is not sa[g]): bad.append(('evaluate_circuit(outputs=[g])', g))\n"
             "# total assignment: evaluated gates of the lazy evaluator are those reached from outputs\n"
             "if all(v!=Undefined for v in A.values()):\n"
             "    lz=c.evaluate_circuit(dict(A))\n"
